@@ -4043,6 +4043,15 @@ class IniFileStore(Store):
         if value and isinstance(value, str):
             # _unquote doesn't handle None nor empty strings nor anything that
             # is not a string, really.
+            for triple in ('"""', "'''"):
+                if (
+                    len(value) >= 6
+                    and value.startswith(triple)
+                    and value.endswith(triple)
+                ):
+                    # quote() uses triple quotes for multi-line values,
+                    # _unquote only knows about single characters
+                    return value[3:-3]
             value = self._config_obj._unquote(value)
         return value
 
